@@ -33,10 +33,10 @@ def run_pipeline(pid, tier, seed, replay, *, driver, model, trace_module, trace_
             n_rep, n_raw = extract_replays("\n".join(all_out), rp, limit=cfg.get("replay_limit"), seed=seed)
             log(f"[gen] {n_raw} behaviours dumped by TLC, {n_rep} kept after prefix pruning / sampling")
             if n_rep:
-                p = vh([driver, "replay", "--in", rp, "--jobs", 8, "--out", os.path.join(d, "rep")] + extra_vh, security=security)
+                p = vh([driver, "replay", "--in", rp, "--jobs", cfg.get("jobs", 8), "--out", os.path.join(d, "rep")] + extra_vh, security=security)
                 rep_stats = json.loads(p.stdout.strip().splitlines()[-1])
         r = cfg["random"]
-        p = vh([driver, "random", "--seed", seed, "--runs", r["runs"], "--events", r["events"], "--jobs", 8, "--out", os.path.join(d, "rnd")] + extra_vh, security=security)
+        p = vh([driver, "random", "--seed", seed, "--runs", r["runs"], "--events", r["events"], "--jobs", cfg.get("jobs", 8), "--out", os.path.join(d, "rnd")] + extra_vh, security=security)
         rnd_stats = json.loads(p.stdout.strip().splitlines()[-1])
     else:
         with open(replay) as f:
